@@ -610,6 +610,7 @@ def run(ctx: Ctx) -> int:
     cases = tlc_cases(gen, tier, rng)
     n_tlc = len(cases)
     cases += random_cases(rng, 150 if tier == "quick" else 1000, tier)
+    n_random = len(cases) - n_tlc
     probes = []
     if tier == "thorough":
         # growth: the front end of the rect stage (Allocation YAML + netlist YAML -> rect_io -> improvement loop)
@@ -626,7 +627,8 @@ def run(ctx: Ctx) -> int:
             "documents": len(probes), "raised": len(hits), "sample": hits[:1]}
     ctx.extra["embeddings"] = ALL
     ctx.extra["cases_from_tlc"] = n_tlc
-    ctx.extra["cases_random"] = len(cases) - n_tlc
+    ctx.extra["cases_random"] = n_random
+    ctx.extra["cases_from_allocation"] = len(cases) - n_tlc - n_random
     ctx.assumptions += [
         "float dimension sampled by 8 embeddings of the integer lattice (steps 1, 1.0, 1/2, 1/10, 1/3, 1e3, 1e-3, 0.1+37.3), not enumerated",
         "rect.Carrier() cannot be constructed on Linux (Windows DLL): the carrier is a SimpleNamespace with the same fields, filled by the real definecoords(); ifile['Width'/'Height'] = bounding box of the grid, as get_alloc() computes it",
